@@ -769,3 +769,182 @@ def _(v):
         sub = [e.subs(yk, expr) for e in inv]
         ok = ok and all(sympy.simplify(sympy.nsimplify(e, rational=True)) == 0 for e in sub) and expr.free_symbols - {yk} >= {y for y in ys if y != yk}
     v.prove("default_elimination_is_the_element_balance", ok, detail=repr(offered))
+
+
+# the periodic table as printed: the atomic number of a symbol is its position (written here, so that 'which element is this' is not answered by the
+# parser's own table)
+ELEMENTS = ("H He Li Be B C N O F Ne Na Mg Al Si P S Cl Ar K Ca Sc Ti V Cr Mn Fe Co Ni Cu Zn Ga Ge As Se Br Kr Rb Sr Y Zr Nb Mo Tc Ru Rh Pd Ag Cd In Sn "
+            "Sb Te I Xe Cs Ba La Ce Pr Nd Pm Sm Eu Gd Tb Dy Ho Er Tm Yb Lu Hf Ta W Re Os Ir Pt Au Hg Tl Pb Bi Po At Rn Fr Ra Ac Th Pa U Np Pu Am Cm Bk "
+            "Cf Es Fm Md No Lr Rf Db Sg Bh Hs Mt Ds Rg Cn Nh Fl Mc Lv Ts Og").split()
+PHASES = ("(s)", "(l)", "(g)", "(aq)")
+
+
+@harness("C05", "phase_labels_do_not_enter_the_balance", functions=["chempy.util.parsing:formula_to_composition", "chempy.util.parsing:_formula_to_parts", CH + ":Substance.from_formula",
+                                                                     RS + ":ReactionSystem.from_string", RS + ":ReactionSystem.check_balance", RS + ":ReactionSystem.composition_balance_vectors"], kind="data")
+def _(v):
+    """'for all reactions over formula-defined substances ... accepted if and only if every reaction leaves every composition key (each element and net
+    charge) unchanged': the elements and the charge of a formula-defined substance are those of the formula AS WRITTEN; a phase label ((s), (l), (g),
+    (aq)) or a leading modification (alpha-, gamma-) adds and removes nothing.  For every element of the periodic table and every phase label the bare
+    symbol, a subscripted symbol and its ions carry exactly that element (and charge); a change of phase is accepted and reports the one vector of
+    ones; turning an element into another whose symbol begins with the same letter is refused naming one of the two, whatever the labels; and hand-
+    balanced reactions between labelled species (metals in water and acid, displacement, precipitation, decomposition) are accepted, their twins
+    that are off in one element or in the charge only are refused naming a key that is really violated"""
+    import re
+    from chempy.chemistry import Reaction, Substance
+    from chempy.reactionsystem import ReactionSystem
+    F = Substance.from_formula
+    Z = {s: i + 1 for i, s in enumerate(ELEMENTS)}
+
+    def comp_of(formula):
+        try:
+            return dict(F(formula).composition)
+        except Exception as ex:
+            return repr(ex)[:60]
+
+    # (1) the composition is the formula's, with any label
+    wrong = []
+    for s in ELEMENTS:
+        for ph in ("",) + PHASES:
+            for formula, want in ((s + ph, {Z[s]: 1}), (s + "2" + ph, {Z[s]: 2}), (s + "+" + ph, {Z[s]: 1, 0: 1}), (s + "-2" + ph, {Z[s]: 1, 0: -2}), (s + "3+2" + ph, {Z[s]: 3, 0: 2})):
+                got = comp_of(formula)
+                if got != want:
+                    wrong.append((formula, got))
+    v.prove("every_element_with_every_phase_label_has_the_composition_of_its_formula", not wrong, detail="%d wrong, e.g. %r" % (len(wrong), wrong[:6]))
+    wrong = []
+    for formula, want in (("alpha-Al2O3(s)", {13: 2, 8: 3}), ("gamma-Al2O3", {13: 2, 8: 3}), (".OH(aq)", {8: 1, 1: 1}), (".NHO-(aq)", {7: 1, 1: 1, 8: 1, 0: -1}), ("e-(aq)", {0: -1}),
+                          ("Hg2Cl2(s)", {80: 2, 17: 2}), ("Ca(OH)2(aq)", {20: 1, 8: 2, 1: 2}), ("Ca(OH)2(s)", {20: 1, 8: 2, 1: 2}), ("Na2CO3..10H2O(s)", {11: 2, 6: 1, 8: 13, 1: 20})):
+        got = comp_of(formula)
+        if got != want:
+            wrong.append((formula, got))
+    v.prove("modifications_brackets_and_hydrates_with_a_phase_label", not wrong, detail=repr(wrong))
+
+    # (2) a change of phase conserves the element: accepted, one invariant (the amount of the element) with a one per phase
+    refused, vectors = [], []
+    for s in ELEMENTS:
+        text = "\n".join("%s%s -> %s%s" % (s, a, s, b) for a, b in zip(PHASES, PHASES[1:]))
+        try:
+            rs = ReactionSystem.from_string(text)
+            A, ck = rs.composition_balance_vectors()
+            if not (list(ck) == [Z[s]] and [list(r) for r in A] == [[1] * len(PHASES)] and set(rs.substances) == {s + ph for ph in PHASES} and rs.check_balance(strict=True) is True):
+                vectors.append((s, [list(r) for r in A], list(ck)))
+        except Exception as ex:
+            refused.append((s, repr(ex)[:80]))
+    v.prove("a_change_of_phase_is_accepted_for_every_element", not refused, detail="%d refused, e.g. %r" % (len(refused), refused[:5]))
+    v.prove("a_change_of_phase_reports_the_amount_of_the_element_as_its_invariant", not vectors and not refused, detail=repr(vectors[:5]))
+
+    # (3) no element turns into another one: symbols that begin alike (H He Hf Hg Ho Hs, C Ca Cd Ce Cf Cl Cm Cn Co Cr Cs Cu, ...) are the ones a reader of
+    # formulas could confuse
+    accepted, misnamed = [], []
+    for x in ELEMENTS:
+        for y in ELEMENTS:
+            if x == y or x[0] != y[0]:
+                continue
+            for i, a in enumerate(PHASES):
+                b = PHASES[(i + len(x) + len(y)) % len(PHASES)]
+                kx, ky = x + a, y + b
+                try:
+                    ReactionSystem([Reaction({kx: 1}, {ky: 1})], [F(kx), F(ky)])
+                    accepted.append("%s -> %s" % (kx, ky))
+                except ValueError as ex:
+                    if not _names_a_violated_key(str(ex), [({kx, ky}, {Z[x]: -1, Z[y]: 1})], {Z[x]: x, Z[y]: y}):
+                        misnamed.append(str(ex))
+                except Exception as ex:
+                    misnamed.append(repr(ex)[:80])
+    v.prove("no_element_turns_into_another_whatever_the_phase_labels", not accepted, detail="%d accepted, e.g. %r" % (len(accepted), accepted[:6]))
+    v.prove("such_a_refusal_names_one_of_the_two_elements", not misnamed, detail="%d, e.g. %r" % (len(misnamed), misnamed[:3]))
+
+    # (4) hand-balanced reactions between labelled species; per unbalanced twin the hand-computed {key: products - reactants}
+    good = ["2 Na(s) + 2 H2O(l) -> 2 Na+(aq) + 2 OH-(aq) + H2(g)", "Mg(s) + 2 H+(aq) -> Mg+2(aq) + H2(g)", "2 Ag+(aq) + Cu(s) -> 2 Ag(s) + Cu+2(aq)", "2 Al(s) + 3 Cl2(g) -> 2 AlCl3(s)",
+            "CaCO3(s) -> CaO(s) + CO2(g)", "Ba+2(aq) + SO4-2(aq) -> BaSO4(s)", "Hg2Cl2(s) -> Hg(l) + HgCl2(aq)", "alpha-Al2O3(s) -> gamma-Al2O3(s)", "Ca(s) + 2 H2O(l) -> Ca(OH)2(aq) + H2(g)",
+            "2 Hg(l) + O2(g) -> 2 HgO(s)", "Os(s) + 2 O2(g) -> OsO4(g)", "Na(g) -> Na+(g) + e-"]
+    bad = [("Na(s) + H2O(l) -> Na+(aq) + OH-(aq) + H2(g)", {1: 1}), ("Mg(s) + H+(aq) -> Mg+2(aq) + H2(g)", {1: 1, 0: 1}), ("Ag+(aq) + Cu(s) -> Ag(s) + Cu+2(aq)", {0: 1}),
+           ("Hg(l) -> H2(g)", {80: -1, 1: 2}), ("H2(g) -> 2 Hg(g)", {1: -2, 80: 2}), ("Ca(s) + O2(g) -> CO2(g)", {20: -1, 6: 1}), ("Ba(s) + 2 H2O(l) -> B(OH)3(aq) + H2(g)", {56: -1, 5: 1, 8: 1, 1: 1}),
+           ("4 Al(l) + 3 O2(g) -> 2 Al2O3(s) + Al(g)", {13: 1}), ("Na(aq) -> N(g)", {11: -1, 7: 1}), ("Na(aq) -> Na+(aq)", {0: 1})]
+    sym = dict((z, s) for s, z in Z.items())
+    sym[0] = "charge"
+    failures = []
+    for text in good:
+        try:
+            rs = ReactionSystem.from_string(text)
+            if rs.check_balance(strict=True) is not True:
+                failures.append((text, "strict balance check says no"))
+        except Exception as ex:
+            failures.append((text, repr(ex)[:100]))
+    v.prove("balanced_reactions_between_labelled_species_are_accepted", not failures, detail=repr(failures[:4]))
+    failures = []
+    for text, viol in bad:
+        species = {t for t in text.replace("->", "+").split() if not t.isdigit() and t != "+"}
+        try:
+            ReactionSystem.from_string(text)
+            failures.append((text, "accepted"))
+        except ValueError as ex:
+            keys = set(viol) | {Z[t] for t in re.findall(r"[A-Z][a-z]?", text) if t in Z} | {0}          # the keys the species of this reaction carry
+            if not _names_a_violated_key(str(ex), [(species, viol)], {k: sym[k] for k in keys}):
+                failures.append((text, str(ex)))
+        except Exception as ex:
+            failures.append((text, repr(ex)[:100]))
+    v.prove("unbalanced_twins_are_refused_naming_a_violated_key", not failures, detail=repr(failures[:4]))
+
+
+@harness("C05", "right_hand_side_for_many_states_at_once", functions=[RS + ":ReactionSystem.rates", CH + ":Reaction.rate", RS + ":ReactionSystem.composition_balance_vectors"], kind="data")
+def _(v):
+    """'the reported composition vectors are exact linear invariants of the kinetic right-hand side for ALL concentrations' -- also when the right-hand
+    side is asked for many concentration vectors in one call (one numpy array per substance, the form a caller plotting or scanning rates uses): state
+    by state it is the mass-action right-hand side sum_r nu_sr k_r prod_i c_i^nu_ir written out here, every composition vector (written here from the
+    formulas) annihilates it, it is what the one-state-at-a-time evaluation gives, the concentrations handed in are left as they were and asking twice
+    gives the same.  Two accepted systems (NOx: several species formed or consumed with coefficient one by one reaction and changed singly by others;
+    an ionic equilibrium with the charge as a key), each with its reactions in the order given and reversed -- the right-hand side is a sum over the
+    reactions, their order cannot matter"""
+    import numpy as np
+    from collections import OrderedDict
+    from contracts._purity import prove_pure
+    from chempy.chemistry import Reaction, Substance
+    from chempy.reactionsystem import ReactionSystem
+    nox = {"HNO2": {1: 1, 7: 1, 8: 2}, "H2O": {1: 2, 8: 1}, "NO": {7: 1, 8: 1}, "NO2": {7: 1, 8: 2}, "N2O4": {7: 2, 8: 4}, "N2O3": {7: 2, 8: 3}}
+    ions = {"Fe+3": {0: 3, 26: 1}, "SCN-": {0: -1, 6: 1, 7: 1, 16: 1}, "FeSCN+2": {0: 2, 6: 1, 7: 1, 16: 1, 26: 1}, "Fe+2": {0: 2, 26: 1}, "e-": {0: -1}}
+    systems = [
+        ("nox", nox, [({"HNO2": 2}, {"H2O": 1, "NO": 1, "NO2": 1}, 3.0), ({"NO2": 2}, {"N2O4": 1}, 4.0), ({"N2O4": 1}, {"NO2": 2}, 0.5), ({"NO": 1, "NO2": 1}, {"N2O3": 1}, 1.5),
+                      ({"N2O3": 1, "H2O": 1}, {"HNO2": 2}, 0.25)]),
+        ("ions", ions, [({"Fe+3": 1, "SCN-": 1}, {"FeSCN+2": 1}, 5.0), ({"FeSCN+2": 1}, {"Fe+3": 1, "SCN-": 1}, 0.7), ({"Fe+3": 1, "e-": 1}, {"Fe+2": 1}, 2.0)]),
+    ]
+    npts = 7
+    for tag, comp, lay in systems:
+        names = list(comp)
+        keys = sorted({ck for c in comp.values() for ck in c})
+        A = np.array([[comp[s].get(ck, 0) for s in names] for ck in keys], dtype=float)
+        # the states: a fixed spread of positive concentrations, different for every substance
+        conc = np.array([[0.1 + 0.37 * ((3 * i + 5 * j) % 11) + 0.01 * i * j for j in range(npts)] for i in range(len(names))])
+        # mass action, written out: rate_r = k_r prod_reactants c^nu; d c_s/dt = sum_r (prod_r[s] - reac_r[s]) rate_r
+        want, size = np.zeros_like(conc), np.zeros_like(conc)
+        for reac, prod, k in lay:
+            rate = k * np.prod([conc[names.index(s)] ** nu for s, nu in reac.items()], axis=0)
+            for i, s in enumerate(names):
+                want[i] += (prod.get(s, 0) - reac.get(s, 0)) * rate
+                size[i] += abs(prod.get(s, 0) - reac.get(s, 0)) * rate
+        tol = 1e-12 * (1 + size)                                                # rounding of a sum of terms of this size, in whatever order they are added
+        scale = 1 + np.abs(A) @ np.abs(want)
+        assert np.all(np.abs(A @ want) <= 1e-12 * scale)                       # the table above is balanced (a slip here is the contract's, not the library's)
+        for order, seq in (("as_given", lay), ("reversed", lay[::-1])):
+            label = "%s.%s" % (tag, order)
+            try:
+                rs = ReactionSystem([Reaction(dict(r), dict(p), k) for r, p, k in seq], OrderedDict((s, Substance.from_formula(s)) for s in names))
+                as_matrix = lambda f: np.array([np.broadcast_to(np.asarray(f[s], dtype=float), (npts,)) for s in names])
+                got = prove_pure(v, label, rs.rates, lambda: (({s: conc[i].copy() for i, s in enumerate(names)},), {}), materialise=as_matrix)
+                worst = np.argwhere(np.abs(got - want) > tol)
+                v.prove(label + ".is_the_mass_action_right_hand_side_in_every_state", worst.size == 0,
+                        detail="d[%s]/dt in state %d: %r, by hand %r" % ((names[worst[0][0]], worst[0][1], got[tuple(worst[0])], want[tuple(worst[0])]) if worst.size else ("", 0, 0, 0)))
+                resid = np.abs(A @ got)
+                v.prove(label + ".every_composition_vector_annihilates_it_in_every_state", bool(np.all(resid <= 1e-9 * (1 + np.abs(A) @ np.abs(got)))),
+                        detail="max |A.f| per key %r: %r" % (keys, resid.max(axis=1).tolist()))
+                single = np.array([[float(rs.rates({s: float(conc[i, j]) for i, s in enumerate(names)})[sk]) for j in range(npts)] for sk in names])
+                v.prove(label + ".agrees_with_one_state_at_a_time", bool(np.all(np.abs(got - single) <= tol)), detail="max difference %g" % float(np.abs(got - single).max()))
+                # the contribution of a single reaction, asked in the same way: nu_s * rate for every substance of the system
+                contrib = []
+                for (reac, prod, k), rxn in zip(seq, rs.rxns):
+                    f = rxn.rate({s: conc[i].copy() for i, s in enumerate(names)}, substance_keys=names)
+                    rate = k * np.prod([conc[names.index(s)] ** nu for s, nu in reac.items()], axis=0)
+                    contrib.append(all(np.all(np.abs(np.asarray(f[s], dtype=float) - (prod.get(s, 0) - reac.get(s, 0)) * rate) <= 1e-12 * (1 + np.abs(rate)) * 4) for s in names))
+                v.prove(label + ".each_reaction_contributes_its_net_coefficient_times_its_rate", all(contrib), detail=repr(contrib))
+                v.prove(label + ".can_be_evaluated", True)
+            except Exception as ex:
+                v.prove(label + ".can_be_evaluated", False, detail=repr(ex)[:300])
